@@ -964,10 +964,12 @@ impl<R: std::io::Read> FlacChannelReader<R> {
                 .map(|c| &c[self.consumed..])
                 .collect())
         } else {
-            self.consumed = 0;
             let channels = usize::from(self.decoder.channel_count().get());
             match self.decoder.read_frame()? {
-                Some(frame) => Ok(frame.channels().collect()),
+                Some(frame) => {
+                    self.consumed = 0;
+                    Ok(frame.channels().collect())
+                }
                 None => Ok(vec![&[]; channels]),
             }
         }
